@@ -33,6 +33,21 @@ def field_eq(t, got, exp):
     return type(got) is str and got == exp
 
 
+NT_DEFAULTS = {'int': -1, 'float': 0.5, 'bool': True, 'str': 'n/a'}
+
+
+def nt_class(names, cols, defaults):
+    """class x(typing.NamedTuple): c0: int; c1: str = 'n/a' ... (defaults on the last half of the fields)"""
+    import typing
+    first_default = len(names) // 2 if defaults else len(names)
+    src = 'class x(typing.NamedTuple):\n'
+    for i, (n, t) in enumerate(zip(names, cols)):
+        src += '    %s: %s%s\n' % (n, t, ' = %r' % (NT_DEFAULTS[t],) if i >= first_default else '')
+    ns = {'typing': typing}
+    exec(src, ns)
+    return ns['x']
+
+
 class C18(Check):
     id = 'C18'
     title = 'CSV dump/load round-trips typed rows'
@@ -48,7 +63,7 @@ class C18(Check):
     stubs = ['simulated disk / file objects handed in through the documented open_obj seam (short reads)', 'transport re-cutting the character stream',
              'final subscriber']
     assumptions = ['strings contain neither \\n nor \\r', 'the header line is written (header=True) and the matching schema, separator and escape char are used for loading']
-    probe_names = ('read_back_inside_completion', 'str_spells_other_type', 'zwnbsp_in_str', 'path:mem', 'path:file', 'short_reads', 'file>64KiB', 'negative_float', 'str_ends_with_escape', 'sep_in_str', 'quote_in_str',
+    probe_names = ('schema_is_NamedTuple_class', 'read_back_inside_completion', 'str_spells_other_type', 'zwnbsp_in_str', 'path:mem', 'path:file', 'short_reads', 'file>64KiB', 'negative_float', 'str_ends_with_escape', 'sep_in_str', 'quote_in_str',
                    'multi_char_sep', 'blank_edges', 'empty_str', 'cut_inside_line')
     quick_cap = 150000
 
@@ -80,6 +95,9 @@ class C18(Check):
             rows.append(row)
         path = rng.choice(['mem', 'file', 'file'])
         case = {'cols': cols, 'rows': rows, 'sep': sep, 'esc': esc, 'path': path, 'cutseed': rng.randrange(1 << 30)}
+        if rng.random() < 0.3:
+            # the schema as a typing.NamedTuple class, with or without default values for its last fields
+            case['schema'] = rng.choice(['nt', 'ntd', 'ntd'])
         if path == 'file':
             case['ack'] = rng.random() < 0.4
             case['encoding'] = rng.choice([None, 'utf-8', 'utf-8'])
@@ -106,6 +124,8 @@ class C18(Check):
                         return False
                     if t == 'str' and (type(v) is not str or '\n' in v or '\r' in v):
                         return False
+            if case.get('schema', 'list') not in ('list', 'nt', 'ntd'):
+                return False
             return case['path'] in ('mem', 'file')
         except (KeyError, TypeError):
             return False
@@ -115,10 +135,16 @@ class C18(Check):
         p = out.probes
         cols = case['cols']
         names = ['c%d' % i for i in range(len(cols))]
-        X = namedtuple('x', names)
+        schema = case.get('schema', 'list')
+        if schema == 'list':
+            X = namedtuple('x', names)
+            dtype = [(n, t) for n, t in zip(names, cols)]
+        else:
+            X = dtype = nt_class(names, cols, schema == 'ntd')
+            p['schema_is_NamedTuple_class'] += 1
         rows = [X(*r) for r in case['rows']]
         sep, esc = case['sep'], case['esc']
-        parser = csv.create_line_parser(dtype=[(n, t) for n, t in zip(names, cols)], separator=sep, escapechar=esc)
+        parser = csv.create_line_parser(dtype=dtype, separator=sep, escapechar=esc)
         p['path:' + case['path']] += 1
         got, term = None, None
         steps = 1
